@@ -192,6 +192,30 @@ def check_limits_and_range(ctx):
         nt += 1
         if o.ok or o.kind != 'CalculationError':
             ctx.violate(core.make_violation({'check': 'out-of-range-not-refused', 'where': name}, f'a pressure outside the kernel range ({name}) {o.brief()[:120]} instead of CalculationError', {'where': name}))
+    # masked arrays (points flagged by the acquisition software): the flagged points do not take part - the result is that of the remaining points - or the input is refused
+    import numpy.ma as ma
+    for name, bad_idx, sentinel in (('one masked point', [12], 1e4), ('three masked points', [5, 20, 33], -999.0), ('masked tail', list(range(36, len(p))), 0.0)):
+        keepm = numpy.ones(len(p), dtype=bool)
+        keepm[bad_idx] = False
+        ld_bad = load.copy()
+        ld_bad[bad_idx] = sentinel
+        masked_l = ma.masked_array(ld_bad, mask=~keepm)
+        masked_p = ma.masked_array(p.copy(), mask=~keepm)
+        want = core.call(psd_dft_kernel_fit, p[keepm], load[keepm], path, 0, timeout=900)
+        for how, pp_, ll_ in (('loading masked', p.copy(), masked_l), ('pressure and loading masked', masked_p, masked_l)):
+            o = core.call(psd_dft_kernel_fit, pp_, ll_, path, 0, timeout=900)
+            ev += 1
+            if not o.ok:
+                continue        # refusing a masked array is an open outcome
+            nt += 1
+            fit_ = numpy.asarray(ma.filled(o.value[3], numpy.nan), dtype=float).reshape(-1)
+            at_valid = fit_[keepm] if len(fit_) == len(p) else fit_
+            if len(at_valid) != int(keepm.sum()) or not numpy.isfinite(at_valid).all() or \
+                    float(((at_valid - load[keepm]) ** 2).sum()) > 1e-3 * max(1.0, float((load[keepm] ** 2).sum())):
+                ctx.violate(core.make_violation({'check': 'masked-points-take-part', 'how': how},
+                                                f'psd_dft_kernel_fit with {name} ({how}; value under the mask {sentinel}): the fitted isotherm does not reproduce the valid points of an exact '
+                                                f'combination of kernel isotherms (sum of squared residuals {float(((at_valid - load[keepm]) ** 2).sum()) if len(at_valid) == int(keepm.sum()) else "shape"})',
+                                                {'masked': bad_idx, 'sentinel': sentinel}))
     # points outside the kernel range which the limits EXCLUDE do not take part: the result is that of the isotherm without them
     for name, extra_p in (('above the range', [hi * 1.0008, min(0.9999, hi * 1.002)]), ('below the range', [lo * 0.2, lo * 0.6])):
         pp = numpy.sort(numpy.concatenate([p, extra_p]))
